@@ -64,7 +64,7 @@ TECHNIQUE = {
     'C01': 'ground table obligations (every row) + SMT-discharged contracts on encoder helpers + bounded round-trip driver',
     'C02': 'ground position lemma executed on every table row + contract-based deductive verification of both sides of the position <-> name map: Segment.add, _parse_structure, get_ordered_children, Segment._get_children / Element._get_children (encode: slot k is the by-name index of the k-th name, extra fields by number) and parse_fields / parse_components / parse_subcomponents (decode: the item from piece index+1 is named <prefix>_<index+1>, call-site obligations)',
     'C03': 'SMT-discharged contracts on _remove_trailing, ElementList.get_children (insertion-order view) and the recursive group search _get_segment_reference + forwarding pass over the AST + bounded round-trip driver',
-    'C04': 'SMT-discharged contracts on the validator closures, the is_unknown definitions, _is_valid and the reporting tail of validate() + bounded instance/mutation driver',
+    'C04': 'SMT-discharged contracts on the validator closures, the is_unknown and is_z_element definitions (pure, total), the Z-name predicates, _is_valid and the reporting tail of validate() + bounded instance/mutation driver',
     'C05': 'SMT-discharged admission contract (_can_add_child), datatype constructors and datatype_factory (ValueError only under STRICT, TOLERANT falls back to ST) + forwarding pass + bounded STRICT/TOLERANT drivers',
     'C06': 'SMT-discharged contracts pinning the translation table and escape pattern + class-alphabet enumeration of the real _escape_value (bounded)',
     'C07': 'SMT-discharged contracts on check_encoding_chars / _split_msh / get_message_info / default resolvers and the Element.encoding_chars getter (parent chain, else the default of the element own version) + bounded delimiter driver',
@@ -77,7 +77,7 @@ TECHNIQUE = {
     'C14': 'SMT-discharged contracts on name resolution (_find_name, child_at_index, get, remove_by_name) and on the five find_child_reference definitions (upper-cased name, by-name map first, then by-long-name map) + bounded addressing driver',
     'C15': 'SMT-discharged raises clauses (no undeclared exception escapes the header functions) + bounded mutation corpus',
     'C16': 'contract-based deductive verification of to_mllp (framing), get_message_type (routing key), _route_message (the one reply comes from the handler registered for the message type, or the ERR handler) and handle() (at most one reply written, connection closed on every path) with the socket / handler objects modelled as external + real server on loopback (bounded); interleavings not explored',
-    'C17': 'contract-based deductive verification of the default resolvers, Element.__init__ (813 obligations: explicit version / level / reference are the ones stored), get_structure, create_element, datatype_factory + package-wide forwarding pass over every call site + bounded configuration sweep',
+    'C17': 'contract-based deductive verification of the default setters (each rebinds exactly one module-level variable, after the check; frame: no existing element written) and resolvers, Element.__init__ (813 obligations: explicit version / level / reference are the ones stored), get_structure, create_element, datatype_factory + package-wide forwarding pass over every call site + bounded configuration sweep',
     'C18': 'contract-based deductive verification of the reference-threading chain (_parse_structure, get_structure, Element.__init__, create_element: the reference handed in is the structure used; about 1 050 SMT-discharged obligations; the setattr copy loop of _find_structure and the dynamic constructor call assumed) + forwarding pass over the AST + bounded profile driver',
     'C19': 'SMT-discharged frame obligations of the functions under contract on the parse / build / encode / validate / datatype paths (no module-level variable rebound, nothing outside `modifies` written - the sufficient condition for thread independence) + ownership pass over every store / mutating call / global declaration + digest and thread corpus (bounded); schedules themselves are not explored by any layer',
 }
